@@ -82,10 +82,17 @@ def run(prop, tier):
     digests = {}
     per_key = {}
     for name, (ef, es) in exes.items():
+      for off in ([None, 4] if tier == 'quick' else [None, 1, 2, 4, 6]):
         for suite in FS + SS:
+            if off is not None and suite == 'C13':
+                continue
             exe = ef if suite in FS else es
             st = ('lite' if suite in heavy else 'quick') if tier == 'quick' else 'quick'
-            r = core.run_slices(exe, ['--suite', suite, '--tier', st], timeout=1500, tag=name)
+            if off is not None:
+                st = 'lite'          # the placement sweep inside each world uses the reduced lattice
+            r = core.run_slices(exe, ['--suite', suite, '--tier', st] + ([] if off is None else ['--off', str(off)]), timeout=1500, tag=name)
+            if off is not None:
+                suite = '%s@%d' % (suite, off)
             digests.setdefault(suite, {})[name] = tuple(r.transcripts)
             for k, v in r.counters.items():
                 res.counters[k] = res.counters.get(k, 0) + v
@@ -107,7 +114,7 @@ def run(prop, tier):
     cmp = 0
     if not per_key:
         for suite, d in sorted(digests.items()):
-            if suite == 'C13':
+            if suite.startswith('C13'):
                 continue          # helper results are host-order dependent numbers by definition; C13 checks images against the model instead
             cmp += 1
             ref = d['native-le']
@@ -115,7 +122,7 @@ def run(prop, tier):
                 if d[w] != ref:
                     res.viol[('C14', 'transcript differs: %s %s vs native-le' % (suite, w))] = {'count': 1, 'case': '', 'detail': 'digests %s vs %s' % (d[w][:2], ref[:2]), 'tag': ''}
     core.finish('C14', tier, t0, res,
-                rule='worlds = {native little-endian gcc -O2, emulated big-endian host at -O0 and -O1, identity run of the same pipeline}; in each world the lattices of C01 C02 C04 C05 C06 C07 C08 C09 C10 C12 C13 C17 (quick tier: lite lattices for C01 C02 C12 C17) run against the byte-addressed reference model; wire-byte/value transcripts of every suite compared between worlds; a failure present in every world is not a host dependence',
+                rule='worlds = {native little-endian gcc -O2, emulated big-endian host at -O0 and -O1, identity run of the same pipeline}; in each world the lattices of C01 C02 C04 C05 C06 C07 C08 C09 C10 C12 C13 C17 (quick tier: lite lattices for C01 C02 C12 C17) run against the byte-addressed reference model, with the PDU at a 16-byte boundary and again at +4 (thorough: +1,+2,+4,+6) so that quadlet- and 8-byte-aligned fast paths are taken in every world; wire-byte/value transcripts of every suite compared between worlds; a failure present in every world is not a host dependence',
                 bounds={'worlds': worlds, 'suites': FS + SS, 'transcripts_compared': cmp},
                 assumptions=['no big-endian hardware, emulator or cross gcc exists in the sandbox: the big-endian host is emulated - clang front end for mips64 (so __BYTE_ORDER__ is big-endian and the identity branch of Byteorder.h is compiled) + an IR rewriter that byte-swaps every 16/32/64-bit integer, float, double and pointer load/store and byte-reverses integer constants in global initialisers; the rewriter refuses code it does not understand',
                              'the emulation is bound to reality by known-answer self-tests (typed reads of byte strings, float/double images, constant tables, struct images) and by the identity run of the same pipeline reproducing the native transcripts',
